@@ -5,6 +5,7 @@ import (
 	"math"
 	"os"
 	"sort"
+	"strings"
 	"testing"
 
 	"github.com/Vedant9500/WTF/internal/database"
@@ -23,12 +24,15 @@ func closeRel(a, b float64) bool {
 // buildByHistory produces a Database whose Commands equal cmds through one of the
 // documented histories, and reports which one.
 func buildByHistory(t *rapid.T, cmds []database.Command, o gen.CmdOpts) (*database.Database, string) {
-	hist := rapid.SampledFrom([]string{"load", "merge", "replace", "grow", "edit-grow", "empty-refill"}).Draw(t, "history")
+	hist := rapid.SampledFrom(c03Histories).Draw(t, "history")
 	if hist == "empty-refill" && len(cmds) == 0 {
 		hist = "load"
 	}
 	if hist == "edit-grow" && len(cmds) < 3 {
 		hist = "grow"
+	}
+	if hist == "made-edit-grow" && len(cmds) < 3 {
+		hist = "made"
 	}
 	switch hist {
 	case "merge":
@@ -94,6 +98,35 @@ func buildByHistory(t *rapid.T, cmds []database.Command, o gen.CmdOpts) (*databa
 		copy(db.Commands[:k+1], final.Commands[:k+1])              // rewritten in place
 		db.Commands = append(db.Commands, final.Commands[k+1:]...) // extended within the same array
 		return db, hist
+	case "made":
+		// entries made by the program (struct literals: no derived fields), never read from a file
+		return &database.Database{Commands: cloneCmds(cmds)}, hist
+	case "made-edit-grow":
+		// the same, searched, then entries rewritten in place through the slice and more appended
+		k := rapid.IntRange(1, len(cmds)-2).Draw(t, "edit-from")
+		old := cloneCmds(cmds[:k+1])
+		for i := range old {
+			if rapid.Bool().Draw(t, "was-other") {
+				old[i] = gen.Command(o).Draw(t, "old-entry")
+			}
+		}
+		db := &database.Database{Commands: append(make([]database.Command, 0, len(cmds)+4), old...)}
+		if rapid.Bool().Draw(t, "eager-build") {
+			db.BuildUniversalIndex()
+		}
+		db.SearchUniversal("find files", database.SearchOptions{Limit: 5, UseNLP: rapid.Bool().Draw(t, "warm-nlp")})
+		final := cloneCmds(cmds)
+		for i := 0; i <= k; i++ { // field by field, as an editing caller would
+			db.Commands[i].Command = final[i].Command
+			db.Commands[i].Description = final[i].Description
+			db.Commands[i].Keywords = final[i].Keywords
+			db.Commands[i].Tags = final[i].Tags
+			db.Commands[i].Platform = final[i].Platform
+			db.Commands[i].Pipeline = final[i].Pipeline
+			db.Commands[i].Niche = final[i].Niche
+		}
+		db.Commands = append(db.Commands, final[k+1:]...)
+		return db, hist
 	case "grow":
 		k := rapid.IntRange(0, len(cmds)).Draw(t, "grow-from")
 		db := gen.Load(t, cmds[:k])
@@ -105,6 +138,8 @@ func buildByHistory(t *rapid.T, cmds []database.Command, o gen.CmdOpts) (*databa
 		return gen.Load(t, cmds), "load"
 	}
 }
+
+var c03Histories = []string{"load", "merge", "replace", "grow", "edit-grow", "empty-refill", "made", "made-edit-grow"}
 
 func sameCommands(db *database.Database, cmds []database.Command) string {
 	if len(db.Commands) != len(cmds) {
@@ -239,6 +274,9 @@ func c03Property(t *rapid.T) {
 	}
 	// staleness: the NLP-on answer must equal the answer of a freshly loaded database
 	fresh := gen.Load(t, cmds)
+	if strings.HasPrefix(hist, "made") {
+		fresh = &database.Database{Commands: cloneCmds(cmds)} // made the same way, never searched before
+	}
 	for _, nlpOn := range []bool{false, true} {
 		so := opt
 		so.UseNLP = nlpOn
@@ -308,8 +346,8 @@ func c03Property(t *rapid.T) {
 func TestC03_Scan(t *testing.T) {
 	r := stat.For("C03")
 	r.Rule("database (any field contents, duplicates, empty fields, Unicode pool) x history in {load, merge main+notebook, CachedDatabase.UpdateDatabase, direct growth of Commands} x query from the database vocabulary x per-term boosts x pipeline-only; NLP and fuzzy off, Limit >= N. Oracle: independent tokenizer + BM25F scorer over the command texts (set equality both ways; scores within 1e-9 relative for distinct query terms; the weaker first-four claim for >10 content words) and equality with a freshly loaded database (NLP off and on). Non-trivial = result set neither empty nor everything.")
-	for _, h := range []string{"load", "merge", "replace", "grow", "edit-grow", "empty-refill"} {
-		r.RequireShare("history:"+h, 0.07)
+	for _, h := range c03Histories {
+		r.RequireShare("history:"+h, 0.05)
 	}
 	r.RequireShare("multi-field-hit", 0.20)
 	r.RequireShare("ubiquitous-term-25+", 0.02)
